@@ -4,6 +4,7 @@ import (
 	"bytes"
 	"encoding/binary"
 	"fmt"
+	"io"
 	"math/big"
 	"os"
 	"path/filepath"
@@ -28,6 +29,32 @@ func reload(o *cli.Opts, data []byte, via string, tag string) (*prover.ProvingSy
 	case "UnsafeReadFrom":
 		ps := new(prover.ProvingSystem)
 		n, err := ps.UnsafeReadFrom(bytes.NewReader(data))
+		return ps, n, err
+	case "UnsafeReadFrom(stream)":
+		// a stream that delivers the bytes the way the writers emit them (two 4-byte header words, then pieces of
+		// arbitrary size): io.Reader permits short reads, a reader must not take one for the whole field
+		pr, pw := io.Pipe()
+		go func() {
+			sizes := []int{4, 4, 1, 3, 7, 64, 1000}
+			off := 0
+			for i := 0; off < len(data); i++ {
+				n := 1 << 16
+				if i < len(sizes) {
+					n = sizes[i]
+				}
+				if off+n > len(data) {
+					n = len(data) - off
+				}
+				if _, err := pw.Write(data[off : off+n]); err != nil {
+					return
+				}
+				off += n
+			}
+			pw.Close()
+		}()
+		ps := new(prover.ProvingSystem)
+		n, err := ps.UnsafeReadFrom(pr)
+		pr.Close()
 		return ps, n, err
 	case "ReadSystemFromFile(fifo)":
 		// the file arrives through a named pipe (`--keys-file <(zstd -dc keys.zst)`): no size, no seeking
@@ -143,6 +170,9 @@ func runC11(o *cli.Opts, run *evid.Run) {
 				run.Add("files_with_depth_batch_header", 1)
 			}
 			via := []string{"UnsafeReadFrom", "ReadSystemFromFile"}[i%2]
+			if i%2 == 0 && (i/2)%3 == 1 {
+				via = "UnsafeReadFrom(stream)"
+			}
 			if i%2 == 1 && (i/2)%2 == 1 { // every other file read goes through a link or a pipe
 				via = []string{"ReadSystemFromFile(symlink)", "ReadSystemFromFile(fifo)", "ReadSystemFromFile(hardlink)"}[(i/4)%3]
 			}
@@ -408,7 +438,12 @@ func runC11(o *cli.Opts, run *evid.Run) {
 	})
 	run.Stage("real")
 	run.Require("reloads through a symlink, a hard link or a named pipe", run.ClassTally("small/raw/ReadSystemFromFile(symlink)").Cases+run.ClassTally("small/compressed/ReadSystemFromFile(fifo)").Cases+run.ClassTally("small/raw/ReadSystemFromFile(hardlink)").Cases, 10)
-	run.Require("small systems round-tripped", run.ClassTally("small/raw/UnsafeReadFrom").Cases+run.ClassTally("small/raw/ReadSystemFromFile").Cases, 100)
+	run.Require("reloads from a stream with short reads", run.ClassTally("small/raw/UnsafeReadFrom(stream)").Cases, 10)
+	smallRaw := 0
+	for _, via := range []string{"UnsafeReadFrom", "UnsafeReadFrom(stream)", "ReadSystemFromFile", "ReadSystemFromFile(symlink)", "ReadSystemFromFile(fifo)", "ReadSystemFromFile(hardlink)"} {
+		smallRaw += run.ClassTally("small/raw/" + via).Cases
+	}
+	run.Require("small systems round-tripped", smallRaw, 100)
 	run.Require("real systems via CLI conversion", run.ClassTally("real/converted-to-raw/UnsafeReadFrom").Cases, 2)
 	run.Require("real compressed round trips", run.ClassTally("real/compressed/ReadSystemFromFile").Cases, 2)
 }
